@@ -17,7 +17,7 @@
 -/
 import Pycel.Model.Proto
 import Pycel.Model.EngineInst
-import Pycel.Model.Validate
+import Pycel.Model.ValidateInst
 namespace Pycel.Drv.C12
 open Pycel Pycel.Engine Pycel.EngineInst Pycel.Validate
 
@@ -77,10 +77,6 @@ def denoteAll (n : Nat) (wb : Workbook) (f : Nat → (Nat → EV) → EV) (inp :
       | .input => inp i
       | _ => f i (fun j => acc.getD j (.sc .blank)))) #[]
 
-def closeEV (tol : Option Rat) : EV → EV → Bool
-  | .sc a, .sc b => closeVal tol a b
-  | a, b => decide (a = b)
-
 def insertSorted (a : Nat) : List Nat → List Nat
   | [] => [a]
   | b :: bs => if a ≤ b then a :: b :: bs else b :: insertSorted a bs
@@ -106,17 +102,9 @@ def handle : List String → String
           | some tolv, some (outs, []) =>
             let specs := nodes.map (·.spec)
             if !wfCheck specs then "!notwf" else
-            let wb := mkWb specs
+            let wb := uniqWb (mkWb specs)
             let raisesAt : Nat → Option (Fail × Val) := fun i => (nodes[i]?).bind (·.raises)
-            -- total semantics (what Excel computed): an X node is the constant stored for it
-            let f : Nat → (Nat → EV) → EV := fun i env =>
-              match raisesAt i with
-              | some (_, v) => .sc v
-              | none => sem specs i env
-            let g : Nat → (Nat → EV) → Except Fail EV := fun i env =>
-              match raisesAt i with
-              | some (e, _) => .error e
-              | none => .ok (sem specs i env)
+            let f := semTot specs raisesAt
             let inp := inputsOf specs
             let den := denoteAll n wb f inp
             let stored0 : Nat → Option EV := fun j =>
@@ -136,8 +124,7 @@ def handle : List String → String
               match ti.toNat?, Val.dec? tv with
               | some i, some t => fun j v => decide (j = i) && decide (v = .sc t)
               | _, _ => fun _ _ => false
-            let C : Cfg EV := { wb := wb, g := g, inp := inp, stored := stored, close := closeEV tolv,
-                                noData := noData, tree := tree = "1" }
+            let C : Cfg EV := instCfg specs raisesAt stored tolv noData (tree = "1")
             let fin := validate C outs
             if !fin.todo.isEmpty then "!fuel" else
             let keys := sortNats (fin.rep.mismatch.map (·.1)).eraseDups
